@@ -1,5 +1,6 @@
 """C14 - rejected documents get errors at the right place with the right expectation."""
 from . import parser_rules as pr, error_rules as er, line_rules as lr, dialect_rules as dr, builder_rules as br
+from . import misc_rules as ms
 
 META = {
     "level": "other",
@@ -31,3 +32,5 @@ def run(rep):
     br.rule_rect(rep, "C14.ragged")
     lr.rule_scanner(rep, "C14.line", "C14.scan")
     lr.rule_token(rep, "C14.token")
+    # no hidden state: what the property promises for one use must hold for every later use as well
+    ms.rule_stateless(rep, "C14")
